@@ -47,7 +47,7 @@ func (s *Sim) opReset(op *Op) {
 	s.filters = keep
 	s.queries = nil
 	s.lastReset = s.OpIdx
-	snap := &resetSnapshot{}
+	snap := &resetSnapshot{pads: len(s.pads)}
 	for _, f := range s.filters {
 		snap.filters = append(snap.filters, f.Spec)
 	}
